@@ -516,6 +516,11 @@ def process_config(args):
                     status, w = out
                     if status == "exc":
                         raise w
+                    if res["paths"] and _STOP is not None and _STOP.value >= int(os.environ.get("SVX_STOP_AFTER", opts.get("stop_after", 12))):
+                        # enough reproduced violations elsewhere: the remaining paths of this configuration are not explored
+                        res["stopped_early"] = True
+                        gen.close()
+                        break
                     res["paths"] += 1
                     res["forks"] += c.forks
                     res["max_depth"] = max(res["max_depth"], len(c.trace))
